@@ -570,6 +570,7 @@ func families(tier string) []fw.Family {
 	fs := []fw.Family{
 		ellFam,
 		curvedCCW,
+		crescentFamily(),
 		flatFam("tri(L4)/rot closed", tri4, false),
 		flatFam("quad(L3) closed", quad3, false),
 		curvedFam("tri(L3)/rot with one curved edge (quad in/out, cubic S, 4 arcs)", tri3nd),
